@@ -56,6 +56,7 @@ type fwdHarness struct {
 	sidEpoch                                                                 int
 	lastSid                                                                  uint8
 	nExclMarker                                                              int
+	nResync                                                                  int
 }
 
 func (h *fwdHarness) logf(f string, a ...any) {
@@ -474,85 +475,114 @@ func runForward(t *rapid.T, or fwdOracles, inOrderOnly bool, withNack bool) *fwd
 	if withNack {
 		ops = append(ops, "nack", "nack", "nack", "resize")
 	}
-	for steps := 0; steps < 400 && h.next < end; steps++ {
-		op := rapid.SampledFrom(ops).Draw(t, "op")
-		switch op {
-		case "run":
-			n := rapid.IntRange(1, 30).Draw(t, "n")
-			for i := 0; i < n && h.next < end; i++ {
-				h.deliver(h.next)
-			}
-		case "layer":
-			tid := rapid.SampledFrom([]int{0, 0, 1, 1, 2}).Draw(t, "wtid")
-			sid := rapid.SampledFrom([]int{0, 0, 1, 1, 2}).Draw(t, "wsid")
-			h.logf("wanted tid=%d sid=%d at e=%d", tid, sid, h.next)
-			h.setWanted(tid, sid)
-		case "lose":
-			k := rapid.IntRange(1, 12).Draw(t, "k")
-			if h.next+k >= end {
-				continue
-			}
-			h.logf("lose %d packets from e=%d", k, h.next)
-			for i := 0; i < k; i++ {
-				missing = append(missing, h.next+i)
-			}
-			h.deliver(h.next + k)
-		case "late":
-			if len(missing) == 0 {
-				continue
-			}
-			j := rapid.IntRange(0, len(missing)-1).Draw(t, "j")
-			e := missing[j]
-			missing = append(missing[:j], missing[j+1:]...)
-			h.logf("late arrival of e=%d (head-%d)", e, h.next-e)
-			h.nLate++
-			h.deliver(e)
-		case "dup":
-			back := rapid.IntRange(1, 200).Draw(t, "back")
-			e := h.next - back
-			if e < h.start || h.arr[e] == 0 {
-				continue
-			}
-			h.logf("duplicate of e=%d (head-%d)", e, back)
-			h.nDup++
-			h.deliver(e)
-		case "resize":
-			n := rapid.SampledFrom([]int{2, 8, 32, 100, 300}).Draw(t, "newsize")
-			if rapid.Bool().Draw(t, "cond") {
-				h.up.cache.ResizeCond(n)
-			} else {
-				h.up.cache.Resize(n)
-			}
-			h.logf("cache resize %d", n)
-		case "nack":
-			var pairs []rtcp.NackPair
-			np := rapid.IntRange(1, 3).Draw(t, "npairs")
-			head := h.want(h.next)
-			for i := 0; i < np; i++ {
-				var base uint16
-				switch rapid.IntRange(0, 5).Draw(t, "nackClass") {
-				case 0, 1: // recently sent
-					base = head - uint16(rapid.IntRange(1, 60).Draw(t, "rb"))
-				case 2: // around a withheld packet
-					if len(h.w) > 0 {
-						w := h.w[len(h.w)-1-rapid.IntRange(0, min(len(h.w)-1, 20)).Draw(t, "wi")]
-						base = h.want(w) + uint16(rapid.IntRange(-2, 2).Draw(t, "wo"))
-					} else {
-						base = head - 3
-					}
-				case 3: // ahead of the head
-					base = head + uint16(rapid.IntRange(0, 40).Draw(t, "ah"))
-				case 4: // far away
-					base = uint16(rapid.IntRange(0, 65535).Draw(t, "far"))
-				case 5: // old, probably evicted
-					base = head - uint16(rapid.IntRange(60, 3000).Draw(t, "old"))
+	phase := func() {
+		for steps := 0; steps < 400 && h.next < end; steps++ {
+			op := rapid.SampledFrom(ops).Draw(t, "op")
+			switch op {
+			case "run":
+				n := rapid.IntRange(1, 30).Draw(t, "n")
+				for i := 0; i < n && h.next < end; i++ {
+					h.deliver(h.next)
 				}
-				bm := rapid.SampledFrom([]uint16{0, 0, 1, 0xffff, 0x5555, 0x8001}).Draw(t, "bm")
-				pairs = append(pairs, rtcp.NackPair{PacketID: base, LostPackets: rtcp.PacketBitmap(bm)})
+			case "layer":
+				tid := rapid.SampledFrom([]int{0, 0, 1, 1, 2}).Draw(t, "wtid")
+				sid := rapid.SampledFrom([]int{0, 0, 1, 1, 2}).Draw(t, "wsid")
+				h.logf("wanted tid=%d sid=%d at e=%d", tid, sid, h.next)
+				h.setWanted(tid, sid)
+			case "lose":
+				k := rapid.IntRange(1, 12).Draw(t, "k")
+				if h.next+k >= end {
+					continue
+				}
+				h.logf("lose %d packets from e=%d", k, h.next)
+				for i := 0; i < k; i++ {
+					missing = append(missing, h.next+i)
+				}
+				h.deliver(h.next + k)
+			case "late":
+				if len(missing) == 0 {
+					continue
+				}
+				j := rapid.IntRange(0, len(missing)-1).Draw(t, "j")
+				e := missing[j]
+				missing = append(missing[:j], missing[j+1:]...)
+				h.logf("late arrival of e=%d (head-%d)", e, h.next-e)
+				h.nLate++
+				h.deliver(e)
+			case "dup":
+				back := rapid.IntRange(1, 200).Draw(t, "back")
+				e := h.next - back
+				if e < h.start || h.arr[e] == 0 {
+					continue
+				}
+				h.logf("duplicate of e=%d (head-%d)", e, back)
+				h.nDup++
+				h.deliver(e)
+			case "resize":
+				n := rapid.SampledFrom([]int{2, 8, 32, 100, 300}).Draw(t, "newsize")
+				if rapid.Bool().Draw(t, "cond") {
+					h.up.cache.ResizeCond(n)
+				} else {
+					h.up.cache.Resize(n)
+				}
+				h.logf("cache resize %d", n)
+			case "nack":
+				var pairs []rtcp.NackPair
+				np := rapid.IntRange(1, 3).Draw(t, "npairs")
+				head := h.want(h.next)
+				for i := 0; i < np; i++ {
+					var base uint16
+					switch rapid.IntRange(0, 5).Draw(t, "nackClass") {
+					case 0, 1: // recently sent
+						base = head - uint16(rapid.IntRange(1, 60).Draw(t, "rb"))
+					case 2: // around a withheld packet
+						if len(h.w) > 0 {
+							w := h.w[len(h.w)-1-rapid.IntRange(0, min(len(h.w)-1, 20)).Draw(t, "wi")]
+							base = h.want(w) + uint16(rapid.IntRange(-2, 2).Draw(t, "wo"))
+						} else {
+							base = head - 3
+						}
+					case 3: // ahead of the head
+						base = head + uint16(rapid.IntRange(0, 40).Draw(t, "ah"))
+					case 4: // far away
+						base = uint16(rapid.IntRange(0, 65535).Draw(t, "far"))
+					case 5: // old, probably evicted
+						base = head - uint16(rapid.IntRange(60, 3000).Draw(t, "old"))
+					}
+					bm := rapid.SampledFrom([]uint16{0, 0, 1, 0xffff, 0x5555, 0x8001}).Draw(t, "bm")
+					pairs = append(pairs, rtcp.NackPair{PacketID: base, LostPackets: rtcp.PacketBitmap(bm)})
+				}
+				h.logf("NACK %v (head out=%d)", pairs, head)
+				h.nack(pairs)
 			}
-			h.logf("NACK %v (head out=%d)", pairs, head)
-			h.nack(pairs)
 		}
+	}
+	phase()
+	// re-synchronisation: the source's numbering jumps by more than the 8192-packet window (a restarted encoder);
+	// the forwarder starts afresh, and everything the statements say holds again from there on, counted from the jump
+	if inOrderOnly && !withNack && rapid.IntRange(0, 2).Draw(t, "resync") == 0 {
+		framesSoFar := cfg.nframes
+		jump := rapid.IntRange(8193, 30000).Draw(t, "jump")
+		if rapid.Bool().Draw(t, "backwards") {
+			jump = 65536 - jump // the 16-bit number moves back by that much
+		}
+		cfg2 := cfg
+		cfg2.start = end + jump
+		cfg2.pid0 = cfg.pid0 + framesSoFar
+		cfg2.ts0 = cfg.ts0 + uint32(framesSoFar)*3000
+		cfg2.nframes = rapid.IntRange(4, 60).Draw(t, "nframes2")
+		h.logf("source numbering jumps by %d: next source packet is e=%d", jump, cfg2.start)
+		h.pkts = genStream(t, cfg2)
+		h.start, h.next = cfg2.start, cfg2.start
+		h.w, h.wset = nil, map[int]bool{}
+		h.arr, h.first, h.byOut = map[int]int{}, map[int]capPkt{}, map[uint16]sentRec{}
+		h.frameW, h.frameN = map[int]int{}, map[int]int{}
+		for _, p := range h.pkts {
+			h.frameN[p.Frame]++
+		}
+		end = h.start + len(h.pkts)
+		h.nResync++
+		phase()
 	}
 	return h
 }
@@ -585,6 +615,8 @@ func fwdClasses(rec *verifkit.Rec, h *fwdHarness) {
 	rec.ClassIf(h.nPidShift > 0, "picture_id_shifted")
 	rec.ClassIf(h.nRetx > 0, "retransmitted")
 	rec.ClassIf(h.nRetxShifted > 0, "retransmitted_with_offset")
+	rec.ClassIf(h.nResync > 0, "source_numbering_jump_beyond_resync_window")
+	rec.ClassIf(h.nResync > 0 && h.nPidShift > 0, "picture_id_shifted_around_a_resync")
 }
 
 var c01wRec = verifkit.New("TestVerif_C01_WriteComposition",
